@@ -134,7 +134,8 @@ func checkKeyLevels(c *engine.Chooser, tag string, p bootstrapping.Parameters, e
 	for _, g := range p.GaloisElements(pN2) {
 		want[g] = true
 	}
-	want[pN2.GaloisElementForComplexConjugation()] = true
+	// exactly the announced list: a caller without the secret key (multiparty, streamed or compressed keys) can only
+	// generate what Parameters.GaloisElements announces, so "announced ∪ whatever the helper adds" is not good enough
 	have := map[uint64]bool{}
 	for _, g := range evk.GetGaloisKeysList() {
 		have[g] = true
@@ -152,7 +153,7 @@ func checkKeyLevels(c *engine.Chooser, tag string, p bootstrapping.Parameters, e
 	}
 	for _, g := range sortedU64(want) {
 		if !have[g] {
-			c.Fail("C18/keys/advertised-galois-key-not-generated", "%s: Parameters.GaloisElements ∪ conjugation contains %d, GenEvaluationKeys did not produce it", tag, g)
+			c.Fail("C18/keys/advertised-galois-key-not-generated", "%s: Parameters.GaloisElements contains %d, GenEvaluationKeys did not produce it", tag, g)
 		}
 	}
 	for _, g := range sortedU64(have) {
